@@ -17,6 +17,7 @@
 #include <algorithm>
 #include <atomic>
 #include <cstdint>
+#include <cstdlib>
 #include <cstring>
 #include <deque>
 #include <functional>
@@ -24,10 +25,27 @@
 #include <map>
 #include <memory>
 #include <mutex>
+#include <new>
 #include <sstream>
 #include <string>
 #include <utility>
 #include <vector>
+
+// Allocation failure (`logf` op): while g_fail_array_new is set every `operator new[]` throws std::bad_alloc.  The only array
+// allocation on the logging path is the queue buffer of a replacement channel (Session::Channel), so a `logf` whose event does
+// not fit the writer's queue runs SessionWriter::replaceChannel with a failing allocation: addEvent must return false and leave
+// the writer attached to its old, still registered channel.
+static bool g_fail_array_new = false;
+static unsigned g_failed_array_news = 0;
+void* operator new[](std::size_t size)
+{
+  if (g_fail_array_new) { ++g_failed_array_news; throw std::bad_alloc(); }
+  void* p = std::malloc(size ? size : 1);
+  if (p == nullptr) { throw std::bad_alloc(); }
+  return p;
+}
+void operator delete[](void* p) noexcept { std::free(p); }
+void operator delete[](void* p, std::size_t) noexcept { std::free(p); }
 
 static std::function<void()> g_after_unlock;
 static std::function<void(const char*, std::size_t)> g_on_write;   // called at the START of every OutputStream::write
@@ -209,6 +227,20 @@ int main()
             // proxy: compare polled channel counts at the next consume.  Here: report ok only.
             const bool ok = it->second->addEvent(std::stoull(t[2]), std::stoull(t[3]), raw);
             seg = std::string("log ok=") + (ok ? "1" : "0");
+          }
+        }
+        else if (t[0] == "logf" && t.size() == 5)
+        {
+          auto it = writers.find(unsigned(std::stoul(t[1])));
+          if (it == writers.end() || ! it->second) { seg = "disabled"; }
+          else
+          {
+            Raw raw; unhex(t[4], raw.bytes);
+            const unsigned before = g_failed_array_news;
+            g_fail_array_new = true;
+            const bool ok = it->second->addEvent(std::stoull(t[2]), std::stoull(t[3]), raw);
+            g_fail_array_new = false;
+            seg = std::string("log ok=") + (ok ? "1" : "0") + " af=" + std::to_string(g_failed_array_news - before);
           }
         }
         else if (t[0] == "dw" && t.size() == 2)
